@@ -141,22 +141,22 @@ def gen(tier, rng):
                 for c in range(cols):
                     yield [R, rows, cols, 0, [[vr, vc, 1, 0], [r, c, 1, 1]]]
     if not quick:
-        # R = 9..24: offsets 0 <= bc <= br <= R; the 8 transformed layouts run by impl() carry each
+        # R = 9..20: offsets 0 <= bc <= br <= R; the 8 transformed layouts run by impl() carry each
         # of them to its whole orbit, so every offset of the window reaches the implementation
-        for R in range(9, 25):
+        for R in range(9, 21):
             W = 2 * R + 1
             for br in range(0, R + 1):
                 for bc in range(0, br + 1):
                     yield [R, W, W, 1, [[R + br, R + bc, 1, 1], [R, R, 1, 1]]]
     # B. all pairs of blockers (unordered, same cell allowed)
-    for R in range(1, 4 if quick else 6):
+    for R in range(1, 4 if quick else 5):
         W = 2 * R + 1
         cells = [(r, c) for r in range(W) for c in range(W)]
         for i in range(len(cells)):
             for j in range(i, len(cells)):
                 yield [R, W, W, 2, [list(cells[i]) + [1, 1], list(cells[j]) + [1, 1], [R, R, 1, 0]]]
     # C. random mixes: 3..7 agents, blocking / non-blocking / inactive, viewer anywhere
-    for _ in range(2500 if quick else 30000):
+    for _ in range(2500 if quick else 15000):
         R = rng.choice([1, 2, 2, 3, 3, 4, 5, 6, 9, 12])
         rows, cols = rng.randint(1, 2 * R + 4), rng.randint(1, 2 * R + 4)
         n = rng.randint(3, 7)
